@@ -65,6 +65,11 @@ func (cw complexityWalker) interfaceFieldComplexity(ctx context.Context, def *as
 	maxComplexity := 0
 	implementors := cw.schema.GetPossibleTypes(def)
 	for _, t := range implementors {
+		if t.Kind != ast.Object {
+			// An interface that implements this interface has no field costs of its own;
+			// the objects behind it are implementors of this interface as well.
+			continue
+		}
 		fieldComplexity := cw.fieldComplexity(ctx, t.Name, field, childComplexity, args)
 		if fieldComplexity > maxComplexity {
 			maxComplexity = fieldComplexity
